@@ -72,6 +72,7 @@ class Ref:
         mujoco.mj_step(self.m, self.d)
     finally:
       self._restore()
+    self.last_warnings = int(sum(w.number for w in self.d.warning))
     return self.d.qpos.copy(), self.d.qvel.copy()
 
 
